@@ -459,6 +459,10 @@ theorem radical_index_resolution (counts rad : List Nat) :
         ∀ i (hi : i < F.flatten.length), F.flatten[i] = rad.contains i) :=
   markRadicals_spec counts rad
 
+/-- both branches evaluated: `C[Na].O` with `^1:1,2` marks the sodium and the oxygen; index 3 is no atom -/
+example : (markRadicals [2, 1] [1, 2]).toOption = some [[false, true], [true]] ∧
+    (markRadicals [2, 1] [3]).toOption = none ∧ (markRadicals [] []).toOption = some [] := by decide
+
 /-- **radical_indices_roundtrip.** The writer's enumeration (`n for n, r in enumerate(radicals) if r` over the
     concatenated flags of all molecules) is inverted by the reader's resolution, for every list of molecules of any
     sizes (empty molecules / roles included). -/
@@ -475,6 +479,11 @@ theorem cx_radicals_roundtrip (roles : List (List Str)) (idx : List Nat) (gs : L
     (hnd : idx.Nodup) :
     radicalsOf (splitWs (render false ⟨roles, idx, gs⟩)) = idx :=
   radicalsOf_render roles idx gs hsp hne hnd
+
+/-- the hypotheses of `cx_radicals_roundtrip` are satisfiable: signature `C.O>>`, indices 0, 1, one fragment group -/
+example :
+    (∀ c ∈ join chGt ([[[67], [79]], [], []].map (join chDot)), isSpace c = false) ∧
+    join chGt ([[[67], [79]], [], []].map (join chDot)) ≠ [] ∧ [0, 1].Nodup := by decide
 
 /-- the writer's index list is duplicate free, so `cx_radicals_roundtrip` applies to everything `formatRxn` emits -/
 theorem writer_radical_indices (rad : List Str → List Bool) (R A P : List (List Str)) :
@@ -587,6 +596,13 @@ theorem mapping_remap_consistent (R P A : List (List Nat)) (o : MapOut)
       o.reactants.flatten = o₀.reactants.flatten.map g ∧ o.products.flatten = o₀.products.flatten.map g ∧
       o.reagents.flatten = o₀.reagents.flatten.map g :=
   postprocess_remap_spec R P A o h
+
+/-- **mapping_remap_gapfree.** After `remap=True` the atom numbers in use are exactly `1 … k-1` for some `k`: every gap
+    is closed, whatever the gaps, duplicates or unbalanced roles of the input ("Remap atom numbers started from one"). -/
+theorem mapping_remap_gapfree (R P A : List (List Nat)) (o : MapOut)
+    (h : postprocessRxn true true R P A = .ok o) :
+    ∃ k, ∀ v, v ∈ o.reactants.flatten ++ o.products.flatten ++ o.reagents.flatten ↔ 1 ≤ v ∧ v < k :=
+  postprocess_remap_gapfree R P A o h
 
 /-- non-trivial instances (evaluated): a repeated number inside a molecule and a reagent re-using a reactant number are
     repaired with fresh numbers above the maximum; `remap=True` closes the gaps 3, 4 with one map for all roles
